@@ -36,6 +36,14 @@ CLAIMS = {
              "in KNOWN_FINDINGS.txt by exact kind; anything else is a violation.",
         note="pre-state values finite; axes box and tool-number range concrete; floats as reals",
         ref="§4 C05"),
+    "C07": dict(
+        text="Inductive step of I7: after any of 96 call shapes from an arbitrary consistent state "
+             "(symbolic feed, power, temperatures, E parameter, tool number) every state property "
+             "the emitted program determines equals what an independent modal interpreter derives; "
+             "z3 decides it for all arguments incl. NaN/inf, also after rejected calls.",
+        note="fields never mentioned by the program are not compared; tool power compared only "
+             "while the tool runs; X/Y/Z remembered arguments not compared; floats as reals",
+        ref="§4 C07"),
     "C06": dict(
         text="Shutdown calls from every tool/coolant state under symbolic tool-power bounds "
              "(incl. ranges excluding 0): never raise, emit exactly M05 / M09 / M05,M09,comment,"
